@@ -581,6 +581,16 @@ func (m *Machine) modelObs() []string {
 func (m *Machine) RunPath(h *HarnessSpec, prefix []bool, wantSample bool) (res PathResult) {
 	p := &pathState{prefix: prefix, pcSet: map[*Term]bool{}, reached: map[string]int{}, knownSeen: map[string]int{}, expect: map[Outcome]bool{}, assumptions: map[string]bool{}, vals: map[*Term]*Term{}}
 	m.path = p
+	if m.P.ReinitGlobals {
+		// C19: package-level state may be written by the code under test; every path starts
+		// from freshly initialised globals so that paths do not influence each other
+		saved := m.funcCount
+		if err := m.initGlobals(); err != nil {
+			return PathResult{Outcome: OutInconclusive, Msg: err.Error()}
+		}
+		m.funcCount = saved
+		m.path = p
+	}
 	m.depth = 0
 	m.instrs = 0
 	m.chanSeq = 0
